@@ -1451,7 +1451,7 @@ func sdOddFrames(o *common.Out, id string, what string, k int) {
 	go pc.Write(refcodec.Build(h, []byte("Park"), []byte("Wait"), nil, body))
 	select {
 	case <-park.entered:
-	case <-time.After(3 * time.Second):
+	case <-time.After(12 * time.Second):
 		o.Fail(id, "rig", "the request never reached its handler", abstract)
 		s.Close()
 		return
@@ -1466,7 +1466,7 @@ func sdOddFrames(o *common.Out, id string, what string, k int) {
 	}
 	close(park.release)
 	got := false
-	pc.SetReadDeadline(time.Now().Add(2 * time.Second))
+	pc.SetReadDeadline(time.Now().Add(12 * time.Second))
 	hdr := make([]byte, 16)
 	if _, err := io.ReadFull(pc, hdr); err == nil {
 		rest := make([]byte, binary.BigEndian.Uint32(hdr[12:]))
@@ -1485,7 +1485,7 @@ func sdOddFrames(o *common.Out, id string, what string, k int) {
 			if e != nil {
 				o.Fail(id, "shutdown-error", fmt.Sprintf("Shutdown without deadline returned %v", e), abstract)
 			}
-		case <-time.After(3 * time.Second):
+		case <-time.After(12 * time.Second):
 			o.Fail(id, "shutdown-hangs", fmt.Sprintf("after %d frame(s) the server could not take (%s), Shutdown did not return although nothing was in progress", k, what), abstract)
 			s.Close()
 		}
@@ -1495,7 +1495,7 @@ func sdOddFrames(o *common.Out, id string, what string, k int) {
 		if e != server.ErrServerClosed {
 			o.Fail(id, "serve-return", fmt.Sprintf("the serve loop returned %v", e), abstract)
 		}
-	case <-time.After(3 * time.Second):
+	case <-time.After(12 * time.Second):
 		o.Fail(id, "serve-return", "the serve loop did not return", abstract)
 	}
 	o.ImplOnly(id, abstract, true)
